@@ -40,3 +40,56 @@ def build_sum_trees(sc):
     return {"text": text, "expect": expect, "function": "spec lemmas for compare::dist_body::{x86_sse2,x86_sse4_1}::distance_{32,64}",
             "domain": "all lane values within the kernel's proved bound; all sequences",
             "assumptions": []}
+
+
+# ------------------------------------------------------------------ update
+GEN_IMPL_ANCHOR = r"crate::GeneratorType\s+for Generator<SIZE_CKSUM, SIZE_BODY, SIZE_BUCKETS, SIZE_IN_BYTES, SIZE_IN_STR_BYTES>"
+
+
+def extract_const(text, name):
+    m = re.search(r"^\s*(?:pub(?:\([a-z]+\))?\s+)?const %s: (\w+) = ([^;]+);" % name, text, re.M)
+    if not m:
+        raise extract.ExtractError("lost-anchor: const %s" % name)
+    return m.group(1), m.group(2).strip()
+
+
+def build_update_for(nb, ckn):
+    def build(sc):
+        g = src(sc, "generate.rs")
+        sig, body = extract.fn_text(g, "update", after=GEN_IMPL_ANCHOR)
+        lines = extract.dedent(body)
+        report = []
+        items = extract.apply_rules(lines, report)
+        annots = extract.parse_annot(os.path.join(VDIR, "update.annot"))
+        header = [b for k, a, b in annots if k == "header"]
+        annots = [(k, a, b) for k, a, b in annots if k != "header"]
+        out = extract.splice(items, annots, report)
+        ws_t, ws_v = extract_const(g, "WINDOW_SIZE")
+        ts_t, ts_v = extract_const(g, "TAIL_SIZE")
+        ml_t, ml_v = extract_const(g, "MAX_LEN")
+        text = "use vstd::prelude::*;\nverus! {\n"
+        text += "pub const WINDOW_SIZE: %s = %s;   // extracted\n" % (ws_t, ws_v)
+        text += read("update_prelude.rs")
+        text += read("update_struct.rs")
+        text += "    const TAIL_SIZE: %s = %s;   // extracted\n    const MAX_LEN: %s = %s;   // extracted\n" % (ts_t, ts_v, ml_t, ml_v)
+        text += "    " + sig + "\n" + "\n".join(header[0] if header else []) + "\n    {\n"
+        text += "\n".join("        " + l for l in out)
+        text += "\n    }\n}\n"
+        text += read("update_lemmas.rs")
+        text += "\n} // verus!\nfn main() {}\n"
+        fidelity = {"unit": "update", "source": "fast-tlsh/src/generate.rs inner::Generator::update",
+                    "rewrites": report,
+                    "dropped": ["attributes and doc comments on the item", "generic header and where-clauses (the bucket count and checksum width are left *arbitrary*: one proof for all five variants and both bucket layouts)",
+                                "bodies of callees (b_mapping, InnerChecksum::update, increment, likely/unlikely): replaced by contracts"],
+                    "kept": "every statement and expression of the body, token for token apart from the listed rewrites"}
+        return {"text": text, "expect": ["Generator::update", "Generator::canary_update_pre", "lemma_chunking_independent", "lemma_fed_length"], "function": "generate::inner::Generator::update",
+                "functions": {"Generator::update": "generate::inner::Generator::update"},
+                "domain": "all data slices (any length) x all well-formed generator states; no bound",
+                "fidelity": fidelity,
+                "assumptions": ["Verus unit update: callees b_mapping / InnerChecksum::update / FuzzyHashBucketsData::increment are external_body with the contract the Kani obligations buckets.b_mapping.*, checksum.update*, buckets.increment.* prove on the real code (bmap, ck_upd uninterpreted)",
+                                "likely()/unlikely() are the identity (intrinsics.rs; under feature `unstable` they are core::intrinsics hints)",
+                                "usize is 64 bit"]}
+    return build
+
+
+unit("update", ["C01", "C03", "C07", "C11", "C15", "C17", "C18"], rlimit=600)(build_update_for(0, 0))
